@@ -1616,6 +1616,7 @@ static string opLts(const vector<string>& a)
 // ---------------------------------------------------------------- utility classes under the algorithms (full-stack tasks T31, T32, …)
 #include "ops/op_ordvec.inc"
 #include "ops/op_achain.inc"
+#include "ops/op_bddsim.inc"
 
 // ---------------------------------------------------------------- API sweep (C20): every remaining public entry point of the four
 // encodings is called once on well-formed operands; each call may complete ('R'), throw NotImplementedException ('N') or
@@ -1751,6 +1752,7 @@ static string runCase(const string& kind, const vector<string>& args)
 	if (kind == "apisweep") return opApiSweep(args);
 	if (kind == "ordvec") return opOrdvec(args);
 	if (kind == "achain") return opAchain(args);
+	if (kind == "bddsim") return opBddsim(args);
 	return "BADKIND";
 }
 
